@@ -14,10 +14,14 @@ OwnRow(r, stripped) == ~Partnered(s) \/ stripped \/ HasA(r, "inLibrary")
 FileView(F, stripped) == [hdr |-> F.hdr,
                       tags |-> SelectSeq(F.tags, LAMBDA r : OwnRow(r, stripped)),
                       ucs |-> {r \in F.ucs : OwnRow(r, stripped) \/ ~r.props},
-                      units |-> {r \in F.units : OwnRow(r, stripped)}]
+                      units |-> {r \in F.units : OwnRow(r, stripped)},
+                      others |-> {r \in F.others : OwnRow(r, stripped)}]
 EmitCase == PrintT("@@EMIT@@" \o ToJson(
    [edits |-> edits, mode |-> MODE, canSave |-> CanSave(s), hdr |-> s.hdr,
     tags |-> {e \in s.tags : Own(e)}, ucs |-> {e \in s.ucs : Own(e)}, units |-> {e \in s.units : Own(e)},
+    others |-> {e \in s.others : Own(e)},
     xmlMerged |-> IF CanSave(s) THEN FileView(Written(s, TRUE, "xml"), FALSE) ELSE <<>>,
     xmlUnmerged |-> IF CanSave(s) /\ Partnered(s) THEN FileView(Written(s, FALSE, "xml"), TRUE) ELSE <<>>]))
+\* the partner slice the specification is written over (the driver checks it against the partner's XML)
+EmitBase == edits = <<>> => PrintT("@@EMIT@@" \o ToJson([base |-> [tags |-> BaseTags, ucs |-> BaseUCs, units |-> BaseUnits, others |-> BaseOthers]]))
 ====
